@@ -19,7 +19,11 @@ every member of every set and an outsider. The two pipelines (schedule, proof of
 Proof of work (spec/SchedulePow.tla): the same four stages for every chain of block intervals up to
 2*gap+k blocks (miner's target, CheckMinerMatch of the mined block and of a list of candidate blocks on
 every tip, bitcoin-compact and legacy targets, sizes shifted by 26 bytes) and for a sweep of compact
-encodings through the real GetCompact / SetCompact."""
+encodings through the real GetCompact / SetCompact. The candidate's parent is a dimension: besides the
+tip, the tip's parent (a competitor of the tip), two stored competitors of the tip (newer / not newer than
+the tip), the tip and the last but one block of the chain the node followed before (a stored side branch)
+and a block the node does not know; timestamps are placed relative to the parent and relative to the tip,
+the prescribed target and the timestamp rule follow the candidate's own ancestry."""
 import copy, json, os, re, threading, time
 import vp
 import tracecheck
@@ -146,13 +150,19 @@ def check(run):
         run.tlc_mc("SchedulePow.tla", _cfg_with(run, "MC_SchedulePow.cfg" if quick else "MC_SchedulePow_thorough.cfg",
                                                 {"Seed": run.seed}, "MC_SchedulePow_seed.cfg"),
                    name="mc_pow", workers=workers, timeout=1500)
+        if not quick:
+            # thorough: the large box without a stored side branch (competitors of the tip, children of stored competitors and
+            # unknown parents on every chain) and the small box with all three shapes of a stored side branch
+            run.tlc_mc("SchedulePow.tla", _cfg_with(run, "MC_SchedulePow_sides.cfg", {"Seed": run.seed}, "MC_SchedulePow_sides_seed.cfg"),
+                       name="mc_pow_sides", workers=workers, timeout=1500)
         phase("pow_model_checking")
         # (2)-(4) proof of work
         pbehs = _generate(run, "Gen_SchedulePow.tla",
                           _cfg_with(run, "Gen_SchedulePow.cfg" if quick else "Gen_SchedulePow_thorough.cfg",
                                     {"Seed": run.seed}, "Gen_SchedulePow_seed.cfg"), "gen_pow", workers)
         kfc = {c: "TRUE" for k, (p, c) in KF.items() if p == "pow" and k in known}
-        tracecheck.replay_and_validate(run, pbehs, driver="pow", driver_args=["-stats", pstats],
+        tracecheck.replay_and_validate(run, pbehs, driver="pow",
+                                       driver_args=["-stats", pstats, "-forkevery", "2" if quick else "8"],
                                        trace_module="Trace_SchedulePow.tla", trace_cfg="Trace_SchedulePow.cfg", name="pow",
                                        kf_consts=kfc or None, kf_desc=known, batch=8000)
         chains = [b for b in pbehs if b[0]["cfg"]["mode"] != "compact"]
@@ -188,7 +198,13 @@ def check(run):
         "big-integer arithmetic of math/big and the ECDSA primitives are trusted; targets are exercised on the domain "
         "below 2^31 and shifted by 26 bytes (values >= 2^16, where the code's arithmetic commutes with the shift); "
         "the compact sweep covers all sizes for boundary and seeded words, not all 2^32 encodings",
-        "stub ledger / block / network objects implement the plugin-facing interfaces (linear chain)",
+        "stub ledger / block / network objects implement the plugin-facing interfaces (a linear main chain plus side-branch blocks "
+        "reachable by id only)",
+        "pow fork candidates: parents are the tip's parent, two stored competitors of the tip (stamped half a second after the tip / "
+        "like their own parent), the tip and the last but one block of the chain the node followed before (stored side branch, read "
+        "back from the ledger into the trace); declared targets are taken from stored blocks (parent, grandparent, tip) or from the "
+        "miner's answer for the tip's child, so at a retarget height of a side branch an accepted candidate exists only where one of "
+        "these coincides with the prescribed target",
     ]
     run.finish(require={
         "schedule_configurations": (s.get("Configs", 0), 1000 if quick else 5000),
@@ -222,5 +238,18 @@ def check(run):
         "pow_target_changes": (p.get("TargetChanges", 0), 500),
         "pow_candidates_accepted": (p.get("CandAccepted", 0), 1000),
         "pow_candidates_rejected": (p.get("CandRejected", 0), 1000),
+        # candidates whose parent is not the tip (competitors of the tip, children of stored competitors and of a stored
+        # side branch), measured on the real blocks submitted
+        "pow_fork_candidates": (p.get("ForkCandChecks", 0), 20000),
+        "pow_fork_candidates_accepted": (p.get("ForkCandAccepted", 0), 3000),
+        "pow_fork_candidates_rejected": (p.get("ForkCandRejected", 0), 10000),
+        "pow_fork_accepted_stamped_before_the_tip": (p.get("ForkAcceptedBeforeTip", 0), 1000),
+        "pow_fork_rejected_stamped_at_or_after_the_tip": (p.get("ForkRejectedNotBeforeTip", 0), 3000),
+        "pow_fork_accepted_competitors_of_the_tip": (p.get("ForkAcceptedCompetitor", 0), 1000),
+        "pow_fork_accepted_children_of_stored_competitors": (p.get("ForkAcceptedSibling", 0), 1000),
+        "pow_fork_accepted_children_of_side_branch": (p.get("ForkAcceptedSideBranch", 0), 500),
+        "pow_side_branches_stored": (p.get("SideBranchesStored", 0), 1000),
+        "pow_candidates_with_unknown_parent": (p.get("OrphanCandChecks", 0), 3000),
+        "pow_fork_declared_target_differs_from_tip_child": (p.get("ForkTargetDiffersFromTipChild", 0), 1000),
         "compact_cases": (p.get("CompactCases", 0), 4000),
     })
